@@ -168,6 +168,7 @@ func runC08(r *Report, tier string) {
 	// R08.5
 	checkBucketEncoders(r, "R08.5")
 	checkValidatorUniqueness(r, "R08.5")
+	checkValidatorExhaustive(r, "R08.5")
 	checkStructureEncodersIV(r, "R08.5")
 	checkEncodersRefuseEmptySignature(r, "R08.5")
 
